@@ -41,31 +41,33 @@ func classOnly(c string) string {
 
 // drive feeds the base message and all of its mutants to every target.
 func drive(k *mon.Case, h *hostile.Harness, r *rand.Rand, base []byte, targets []target, o driveOpts) {
-	muts := []hostile.Mutant{{Class: "valid", Data: base}}
-	muts = append(muts, hostile.Truncations(r, base, o.sampleAbove, o.truncSample)...)
-	sm, parsed := hostile.StructureMutants(base)
-	if !parsed {
-		k.Count("base_not_parsed_by_wire_parser", 1)
-	}
-	if o.capMutants > 0 && len(sm) > o.capMutants {
-		r.Shuffle(len(sm), func(i, j int) { sm[i], sm[j] = sm[j], sm[i] })
-		sm = sm[:o.capMutants]
-	}
-	muts = append(muts, sm...)
-	muts = append(muts, hostile.RandomMutants(r, base, o.random)...)
-	for _, m := range muts {
+	run := func(class string, data []byte) {
 		for _, t := range targets {
 			var out string
-			res := h.Call(k, t.entry, m.Class, m.Data, func() { out = t.fn(m.Data) })
+			res := h.Call(k, t.entry, class, data, func() { out = t.fn(data) })
 			if res.Skipped {
 				continue
 			}
 			if res.Panicked {
 				out = "panic"
 			}
-			k.Nontrivial(t.entry + "|" + o.tag + "|" + classOnly(m.Class) + "|" + out)
+			k.Nontrivial(t.entry + "|" + o.tag + "|" + classOnly(class) + "|" + out)
 			k.Count("outcome:"+t.entry+":"+out, 1)
 		}
+	}
+	run("valid", base)
+	for _, m := range hostile.Truncations(r, base, o.sampleAbove, o.truncSample) {
+		run(m.Class, m.Data)
+	}
+	sm, parsed := hostile.SampleStructureMutants(r, base, o.capMutants)
+	if !parsed {
+		k.Count("base_not_parsed_by_wire_parser", 1)
+	}
+	for _, l := range sm {
+		run(l.Class, l.Build())
+	}
+	for _, m := range hostile.RandomMutants(r, base, o.random) {
+		run(m.Class, m.Data)
 	}
 }
 
